@@ -20,6 +20,11 @@ def jobs(tier):
     add("c05.bb", 1 if q else 2, grace=1, threads=2, calls=1, ksteps=4, soft=2, hard=2, tbuf=2)
     add("c05.ub", 1, grace=1, threads=3, calls=1, ksteps=3, soft=1, hard=1, tbuf=1)
     add("c05.ub", 1 if q else 2, grace=0, threads=2, calls=1, ksteps=2, soft=1, hard=1, tbuf=1)  # control: ordering disabled
+    # queue growth: a read pass that ends on the hard limit exactly at the end of the first buffer, batch mode, another
+    # thread with a newer statement
+    for na, hard in ((6, 4), (5, 4), (6, 2)):
+        add("c05.grow", 1 if q else 2, grace=1, na=na, soft=hard, hard=hard, tbuf=hard, points=0)
+    add("c05.grow", 1, grace=1, na=6, soft=4, hard=4, tbuf=4, points=1)
     # a thread logging for the first time while the backend is stalled between refreshing its list of threads and
     # reading its ordering clock, followed by a later statement of another thread
     add("c06.ub", 2, grace=1, adv=3, a=1, b=1, sleepadv_ns=2000, sync=1, noflush=1)
